@@ -137,6 +137,56 @@ theorem position_after_encoding (t : BSink) (ht : t.good) (L B R : Bytes) (cs : 
     simp only [List.nil_append] at this
     exact ⟨by rw [this.2.1, this.1], by rw [this.2.1]; exact hl⟩
 
+/-- **scripts of Encoder calls on one bounded sink, carrying on after a call that did not fit**
+    (`Sink.callSeq`, what the six-configuration op `encseq` runs).  `pss` gives, per call, the `put`
+    chunks of the method.  A call succeeds iff its whole encoding fits into what is left *at that
+    time* (`specCalls`); whatever happened before, the position is the number of bytes accepted,
+    the memory is `L ++ accepted ++ untouched rest of B ++ R`, and a failed call has added a prefix
+    of its own encoding only (`fitPrefix`): on the all-or-nothing sinks whole chunks, never part of
+    one.  So what the next call sees after a failure is determined by the sizes alone. -/
+theorem call_script (t : BSink) (ht : t.good) (L B R : Bytes) (pss : List (List Bytes)) :
+    ∃ s', (fresh t L B R).callSeq pss = some (s', (specCalls t.atomic B.length pss).1) ∧
+      s'.position = s'.accepted.length ∧
+      s'.accepted = (specCalls t.atomic B.length pss).2 ∧
+      s'.accepted.length ≤ B.length ∧
+      s'.memory = L ++ s'.accepted ++ B.drop s'.accepted.length ++ R := by
+  obtain ⟨b', e, l⟩ := callSeq_spec t ht pss (freshBuf_lay L B R)
+  have acc := l.accepted t
+  simp only [List.nil_append] at acc
+  refine ⟨t.mk b', e, ?_, acc.1, ?_, ?_⟩
+  · rw [acc.2.1, acc.1]
+  · rw [acc.1]; exact specCalls_le _ _ _
+  · rw [acc.2.2, acc.1]
+
+/-- what one call leaves behind: all of its encoding iff that fits, otherwise a strict prefix of it
+    made of whole `put` chunks (all-or-nothing sinks) — and a call that fits is not affected by
+    failures before it beyond the room they took. -/
+theorem call_leaves_prefix (atomic : Bool) (free : Nat) (ps : List Bytes) :
+    fitPrefix atomic free ps <+: ps.flatten ∧ (fitPrefix atomic free ps).length ≤ free ∧
+    (ps.flatten.length ≤ free → fitPrefix atomic free ps = ps.flatten) ∧
+    (free < ps.flatten.length → (fitPrefix atomic free ps).length < ps.flatten.length) :=
+  ⟨fitPrefix_prefix _ _ _, fitPrefix_le _ _ _, fitPrefix_all _ _ _, fitPrefix_lt _ _ _⟩
+
+/-- a script without failures is one encoding: the chunks of all calls in order. -/
+theorem call_script_all_fit (t : BSink) (ht : t.good) (L B R : Bytes) (pss : List (List Bytes))
+    (h : pss.flatten.flatten.length ≤ B.length) :
+    (specCalls t.atomic B.length pss).1 = pss.map (fun _ => true) ∧
+    (specCalls t.atomic B.length pss).2 = pss.flatten.flatten := by
+  have key : ∀ (pss : List (List Bytes)) (free : Nat), pss.flatten.flatten.length ≤ free →
+      (specCalls t.atomic free pss).1 = pss.map (fun _ => true) ∧ (specCalls t.atomic free pss).2 = pss.flatten.flatten := by
+    intro pss
+    induction pss with
+    | nil => intro free _; simp [specCalls]
+    | cons ps rest ih =>
+      intro free h
+      simp only [List.flatten_cons, List.flatten_append, List.length_append] at h
+      have e := fitPrefix_all t.atomic ps free (by omega)
+      obtain ⟨i1, i2⟩ := ih (free - ps.flatten.length) (by omega)
+      simp only [specCalls, e, List.map_cons, List.flatten_cons, List.flatten_append]
+      have hd : decide (ps.flatten.length ≤ free) = true := decide_eq_true (by omega)
+      exact ⟨by rw [i1, hd], by rw [i2]⟩
+  exact key pss B.length h
+
 /-- **failure is a write error, never a panic**: too long an encoding yields `Error::write`. -/
 theorem failure_is_write_error (t : BSink) (ht : t.good) (L B R : Bytes) (cs : List Bytes) :
     (fresh t L B R).putAll cs ≠ .panic ∧
@@ -188,6 +238,15 @@ example :
       | .err s' => s'.memory == [0xAA, 0x1a, 0, 1, 0xBB] && s'.position == 3 | _ => false) = true ∧
     (match (fresh (.mem .cursorArray) [0xAA] [0, 0, 0, 0, 0] [0xBB]).putAll [[0x1a], [0, 1, 0x11, 0x70]] with
       | .ok s' => s'.memory == [0xAA, 0x1a, 0, 1, 0x11, 0x70, 0xBB] && s'.position == 5 | _ => false) = true := by
+  decide
+
+/-- the script `u8(1); bytes([0x11; 8]); u16(1000)` on a 6-byte slice: the second call writes its head and
+    fails on the payload, the third still fits: `01 48 19 03 e8`, one byte left untouched. -/
+example :
+    (match (fresh (.mem .slice) [0xAA] [0xEE, 0xEE, 0xEE, 0xEE, 0xEE, 0xEE] [0xBB]).callSeq
+        [[[1]], [[0x48], [0x11, 0x11, 0x11, 0x11, 0x11, 0x11, 0x11, 0x11]], [[0x19], [3, 0xe8]]] with
+      | some (s', oks) => s'.memory == [0xAA, 1, 0x48, 0x19, 3, 0xe8, 0xEE, 0xBB] && s'.position == 5 && oks == [true, false, true]
+      | none => false) = true := by
   decide
 
 end Minicbor.C13
